@@ -143,14 +143,21 @@ func (p *parser) parseMessageText() (dataItem ast.ItemNode, ok bool) {
 	}
 	p.pos += lengthBytesCount
 
+	if formatCode != formatCodeList && length > len(p.input)-p.pos {
+		// declared length exceeds the remaining input; do not allocate for it
+		return ast.NewEmptyItemNode(), false
+	}
+
 	switch formatCode {
 	case formatCodeList:
-		values := make([]interface{}, length)
+		// grows with the items actually present, not with the declared count
+		values := make([]interface{}, 0)
 		for i := 0; i < length; i++ {
-			values[i], ok = p.parseMessageText()
+			value, ok := p.parseMessageText()
 			if !ok {
 				return ast.NewEmptyItemNode(), false
 			}
+			values = append(values, value)
 		}
 		return ast.NewListNode(values...), true
 
